@@ -49,6 +49,7 @@ func genCase(t *rapid.T) Case {
 			c.Cmds = append(c.Cmds, script.CMsg{K: "P", Name: "x", Query: "perr"})
 		}
 	}
+	c.OptSeed = rapid.IntRange(0, 1000).Draw(t, "option-order")
 	if rapid.Bool().Draw(t, "extra-params") {
 		c.Params = [][2]string{{"application_name", gen.CString(40).Draw(t, "app")}}
 	}
